@@ -3,7 +3,7 @@
 # Runs the checks against a patched COPY of the repository (git worktree under /root/mutbench), so that
 # /repo itself and any sweep running against it stay untouched.
 PATCH="$(realpath "$1")"; TIER="$2"; shift 2
-B=/root/mutbench
+B=${MUTBENCH_DIR:-/root/mutbench}
 mkdir -p $B
 if [ ! -d $B/repo ]; then git -C /repo worktree add -q --detach $B/repo HEAD || exit 1; fi
 git -C $B/repo reset -q --hard; git -C $B/repo checkout -q --detach "$(git -C /repo rev-parse HEAD)" || exit 1
